@@ -257,6 +257,21 @@ func c10verifyOne(c *c10case, methods []auth.VerifyMethod, k c10conc) (accepted 
 		realMethod, cm, curl = base.Setup, base.Setup, stream+"/"
 	case "base_nonsetup":
 		curl = stream + "/"
+	case "setup_other":
+		// a SETUP whose authorization was computed for some URL that is neither the track
+		// nor the stream's base URL: another stream / track, or a shorter prefix of the base
+		realMethod, cm = base.Setup, base.Setup
+		u := bed.MustURL(stream)
+		switch k.other {
+		case 0:
+			curl = c10streams[(k.stream+1)%len(c10streams)] + "/"
+		case 1:
+			curl = u.Scheme + "://" + u.Host + "/"
+		case 2:
+			curl = stream[:len(stream)-1]
+		default:
+			curl = stream + "/trackID=2"
+		}
 	default:
 		return false, "", fmt.Errorf("c10: unknown perturbation %q", c.Pert)
 	}
